@@ -91,6 +91,7 @@ def run(ctx, rep):
         if seqs:
             CF.check_sections(fx, rep, "C02.5", wv, seqs)
     LR.check_remap_method(fx, rep, "C02.6")
+    CF.check_string_table_model(fx, rep, "C02.6")
     nt = check_twins(fx, rep, "C02.7")
     rep.floor("C02.7", nt, 6, "twin pairs")
     rep.assumptions += ["domain: non-empty names, line numbers < 2^32-1 (empty strings are stored as the sentinel by the string table)"]
